@@ -573,18 +573,20 @@ class World:
             nmain = obj.config.nmaindata
             pars, data = self._model_point(twin, a, op["pt"])
             dmain, daux = data[:nmain], data[nmain:]
+            tl = self.pyhf.tensorlib
+            T = tl.astensor
             obsv = [
                 ("expected_data", lambda m: m.expected_data(pars)),
                 ("expected_actualdata", lambda m: m.expected_actualdata(pars)),
                 ("logpdf", lambda m: m.logpdf(pars, data)),
-                ("mainlogpdf", lambda m: m.mainlogpdf(dmain, pars)),
+                ("mainlogpdf", lambda m: m.mainlogpdf(T(dmain), T(pars))),
                 ("by_sample", lambda m: m.main_model.expected_data(self.pyhf.tensorlib.astensor(pars), return_by_sample=True)),
                 ("nominal_rates", lambda m: m.nominal_rates),
                 ("sample_shape", lambda m: list(self.pyhf.tensorlib.shape(m.make_pdf(self.pyhf.tensorlib.astensor(pars)).sample((3,))))),
             ]
             if len(daux):
                 obsv += [("expected_auxdata", lambda m: m.expected_auxdata(pars)),
-                         ("constraint_logpdf", lambda m: m.constraint_logpdf(daux, pars))]
+                         ("constraint_logpdf", lambda m: m.constraint_logpdf(T(daux), T(pars)))]
             for name, fn in obsv:
                 out.append(self._cmp(kind, name, self._observe(lambda: fn(obj)), self._observe(lambda: fn(twin))))
         elif kind == "interp":
